@@ -10,9 +10,121 @@ KERNELS = ["support._make_jac_kernel___jac"]
 LEVEL_TEXT = ("Theorems about functions regenerated from support.py / smooth.py on every run: `jac_dof` returns MuJoCo's mj_jac column (cdof_lin + cdof_ang x (point - subtree_com[root]), cdof_ang) "
               "when the dof is an ancestor of the body, else 0; for hinge/slide dofs the column is (axis x (x - anchor), axis) / (axis, 0) (the subtree-com offsets cancel); for a single hinge in any "
               "unit frame the derivative of the kernel's own point position w.r.t. the joint angle IS that column (HasDerivAt). On the real code: jac() vs mujoco.mj_jac on random points/bodies, "
-              "J*qvel vs efc_vel for every constraint row, finite-difference of point positions, and dense vs sparse Jacobian simulations.")
-LEVEL_NOTE = "C22_partial: chains of joints and ball/free rotational dofs (velocity-map statement), tendon/actuator Jacobians (vs MuJoCo and vs finite differences of the lengths) and dense=sparse are sampled only. Trusted: Lean kernel + Mathlib, translator."
-ASSUMPTIONS = ["tolerance 1e-4 on Jacobians, 2e-3 on J*qvel vs efc_vel, finite-difference step 1e-4 in float64 MuJoCo positions"]
+              "J*qvel vs efc_vel for every constraint row, the COMPLETE tendon and actuator Jacobian matrices (ten_J, actuator_moment) for every transmission kind (joint/jointinparent on "
+              "hinge, slide, ball and free joints; tendon; site with and without refsite; adhesion on a body; slider-crank with the slider site on a rotating body and the crank in the same tree, "
+              "another tree or the world, regular and degenerate determinant) vs MuJoCo on the same state and vs per-dof central differences of mujoco_warp's own lengths, and dense vs sparse "
+              "Jacobian simulations with non-zero controls.")
+LEVEL_NOTE = ("C22_partial: chains of joints and ball/free rotational dofs (velocity-map statement), tendon/actuator Jacobians (every transmission kind, complete matrices vs MuJoCo; vs finite differences "
+              "of the lengths where the Jacobian is an exact derivative: tendons, scalar-joint, tendon and slider-crank transmissions) and dense=sparse are sampled only. The adhesion (body) moment is "
+              "checked by running transmission() alone on MuJoCo's own contacts and constraint rows (contact-set differences belong to C04). Trusted: Lean kernel + Mathlib, translator.")
+ASSUMPTIONS = ["tolerance 1e-4 on point Jacobians, 2e-4 * (1 + max |row|) on tendon/actuator Jacobian rows vs MuJoCo, 2e-2 * (1 + max |row|) vs central differences (step 1e-3, float32 lengths), "
+               "3e-3 * (1 + max |efc_vel|) on J*qvel vs efc_vel, max(5e-3, 2e-7 * cond(M)) * (1 + max |qacc|) on dense vs sparse qacc (float32 solve)",
+               "slider-crank lengths are differentiated only where |det| > 1e-2 (the branch switch at det = 0 is not differentiable); cranklengths are chosen per state so that sqrt(det) is in [0.2, 0.6] "
+               "or det is clearly negative"]
+
+TRN = {0: "joint", 1: "jointinparent", 2: "slidercrank", 3: "tendon", 4: "site", 5: "body"}  # mujoco.mjtTrn
+
+
+def _inject_sites(rng, wb):
+  """adds a randomly placed and ORIENTED site xs<b> to every generated body b<b> and a site xsw to the world body"""
+  import re
+  from harness.gen.models import _f
+
+  def one(name):
+    q = rng.normal(size=4)
+    return f'<site name="{name}" pos="{_f(rng.uniform(-0.15, 0.15, size=3))}" quat="{_f(q / np.linalg.norm(q))}"/>'
+
+  wb = re.sub(r'<body name="b(\d+)"[^>]*>', lambda mo: mo.group(0) + one(f"xs{mo.group(1)}"), wb)
+  return f'    <site name="xsw" pos="{_f(rng.uniform(-0.3, 0.3, size=3) + np.array([0, 0, 0.8]))}" quat="{_f((lambda q: q / np.linalg.norm(q))(rng.normal(size=4)))}"/>\n' + wb
+
+
+def _all_transmissions(rng, mjm0, sp, c):
+  """actuator XML covering every transmission kind for the tree compiled in mjm0 (bodies b<k> carry sites xs<k>; world: xsw)"""
+  import mujoco
+  from harness.gen.models import _f
+  J = mujoco.mjtJoint
+  act = ""
+  g6 = lambda: _f(rng.uniform(0.3, 2.0, size=6) * rng.choice([-1, 1], size=6))
+  g3 = lambda: _f(rng.uniform(0.3, 2.0, size=3) * rng.choice([-1, 1], size=3))
+  # joint / jointinparent on ball and free joints (hinge/slide: jointinparent == joint; one of them too)
+  done = set()
+  for jn, jt in sp.joint_types.items():
+    if jt in done:
+      continue
+    done.add(jt)
+    if jt == "free":
+      act += f'<motor joint="{jn}" gear="{g6()}"/><motor jointinparent="{jn}" gear="{g6()}"/>'
+    elif jt == "ball":
+      act += f'<motor joint="{jn}" gear="{g3()}"/><motor jointinparent="{jn}" gear="{g3()}"/>'
+    else:
+      act += f'<motor jointinparent="{jn}" gear="{rng.uniform(0.5, 2):.4g}"/>'
+  # rotational dofs at or above each body, tree of each body
+  nb = mjm0.nbody
+  rot = np.zeros(nb, dtype=bool)
+  for b in range(1, nb):
+    jt = mjm0.jnt_type[mjm0.body_jntadr[b]: mjm0.body_jntadr[b] + mjm0.body_jntnum[b]] if mjm0.body_jntnum[b] else []
+    rot[b] = rot[mjm0.body_parentid[b]] or any(int(t) in (int(J.mjJNT_FREE), int(J.mjJNT_BALL), int(J.mjJNT_HINGE)) for t in jt)
+  name = {b: mujoco.mj_id2name(mjm0, mujoco.mjtObj.mjOBJ_BODY, b) for b in range(1, nb)}
+  xs = lambda b: "xs" + name[b][1:]
+  bodies = list(range(1, nb))
+  moving = [b for b in bodies if mjm0.body_weldid[b] != 0]
+  # wrench at a site without refsite; site relative to a refsite with a full (translational and rotational) gear
+  b = moving[c % len(moving)] if moving else bodies[c % len(bodies)]
+  act += f'<general site="{xs(b)}" gear="{g6()}"/>'
+  b2 = bodies[(c + 1) % len(bodies)]
+  act += f'<general site="{xs(b)}" refsite="{xs(b2) if b2 != b else "xsw"}" gear="{g6()}"/>'
+  # adhesion on a body (moment: average of the normal Jacobians of the body's contacts)
+  act += f'<adhesion body="{name[bodies[c % len(bodies)]]}" ctrlrange="0 1" gain="{rng.uniform(0.5, 2):.4g}"/>'
+  if moving and c % 2:
+    act += f'<adhesion body="{name[moving[(c // 2) % len(moving)]]}" ctrlrange="0 1" gain="{rng.uniform(0.5, 2):.4g}"/>'
+  # slider-cranks (cranklength is set per state in _set_cranklengths)
+  rots = [b for b in bodies if rot[b]]
+  sc = lambda crank, slider: f'<motor cranksite="{crank}" slidersite="{slider}" cranklength="1" gear="{rng.uniform(0.5, 2) * rng.choice([-1, 1]):.4g}"/>'
+  if rots:
+    bs = rots[c % len(rots)]
+    same = [b for b in bodies if b != bs and mjm0.body_rootid[b] == mjm0.body_rootid[bs]]
+    other = [b for b in moving if mjm0.body_rootid[b] != mjm0.body_rootid[bs]]
+    if same:
+      act += sc(xs(same[c % len(same)]), xs(bs))
+    if other:
+      act += sc(xs(other[c % len(other)]), xs(bs))
+    act += sc("xsw", xs(bs))
+    gen = [s for s in sp.sites if s != "s" + name[bs][1:]]
+    if gen:  # crank on one of the generator's unrotated sites
+      act += sc(gen[c % len(gen)], xs(bs))
+  act += sc(xs(moving[(c + 2) % len(moving)] if moving else bodies[0]), "xsw")
+  return act
+
+
+def _set_cranklengths(rng, mjm, mjd, c):
+  """cranklength per slider-crank from the CURRENT site poses: the determinant av^2 + r^2 - |v|^2 is s^2 with s in [0.2, 0.6]
+  (regular branch, derivative of sqrt well conditioned) or, for one actuator of every third case, clearly negative (the
+  degenerate branch length = av). Returns the determinants (NaN for other transmissions)."""
+  det = np.full(mjm.nu, np.nan)
+  k = 0
+  for i in range(mjm.nu):
+    if mjm.actuator_trntype[i] != 2:
+      continue
+    cr, sl = mjm.actuator_trnid[i]
+    v = mjd.site_xpos[cr] - mjd.site_xpos[sl]
+    av = v @ mjd.site_xmat[sl].reshape(3, 3)[:, 2]
+    perp2 = max(v @ v - av * av, 0.0)
+    if c % 3 == 0 and k == (c // 3) % 2 and perp2 > 0.02:
+      r2 = perp2 * rng.uniform(0.2, 0.6)
+    else:
+      r2 = perp2 + rng.uniform(0.2, 0.6) ** 2
+    mjm.actuator_cranklength[i] = np.sqrt(r2)
+    det[i] = r2 - perp2
+    k += 1
+  return det
+
+
+def _dense(vals, rownnz, rowadr, colind, nrow, nv):
+  out = np.zeros((nrow, nv))
+  for i in range(nrow):
+    for k in range(int(rownnz[i])):
+      out[i, int(colind[int(rowadr[i]) + k])] += float(vals[int(rowadr[i]) + k])
+  return out
 
 
 def _run(ctx, ncases, rec):
@@ -21,11 +133,15 @@ def _run(ctx, ncases, rec):
   import mujoco_warp as mjw
   from harness.gen import models
   rng = np.random.default_rng(ctx.seed * 1000 + 22)
+  rx = np.random.default_rng(ctx.seed * 1000 + 2222)  # separate stream for the transmission sweep (keeps the tree/state stream stable)
   acc = Acc()
 
   def scenario():
     for c in range(ncases):
       wb, sp = models.random_tree(rng, nbody=int(rng.integers(2, 7)), max_joints_per_body=2, geom_types=["sphere", "capsule", "box"], sites=True, spread=0.35)
+      # an ORIENTED site on every body and one on the world body (slider axes are site z axes; the generator's own sites are
+      # unrotated and exist on 60% of the bodies only)
+      wb = _inject_sites(rx, wb)
       extra = ""
       if len(sp.bodies) >= 2:
         extra = f'<equality><connect body1="{sp.bodies[0]}" body2="{sp.bodies[-1]}" anchor="0.05 0 0"/></equality>'
@@ -37,7 +153,7 @@ def _run(ctx, ncases, rec):
         for k in range(int(rng.integers(1, 3))):
           a, b = rng.choice(len(sp.sites), size=2, replace=False)
           ten += f'<spatial name="sp{k}"><site site="{sp.sites[a]}"/><site site="{sp.sites[b]}"/></spatial>'
-          act += f'<motor tendon="sp{k}"/>'
+          act += f'<motor tendon="sp{k}" gear="{rx.uniform(0.5, 2):.4g}"/>'
       if len(hj22) >= 2:
         ten += f'<fixed name="fx"><joint joint="{hj22[0]}" coef="1.3"/><joint joint="{hj22[1]}" coef="-0.7"/></fixed>'
         act += '<position tendon="fx" kp="2"/>'
@@ -45,6 +161,16 @@ def _run(ctx, ncases, rec):
         act += f'<motor joint="{hj22[0]}" gear="1.7"/>'
       if len(sp.sites) >= 2:
         act += f'<general site="{sp.sites[0]}" refsite="{sp.sites[-1]}" gear="1 0 0 0 0.5 0"/>'
+      # EVERY transmission kind in every case (the topology-dependent ones are chosen from a first compile of the bare tree):
+      # joint / jointinparent on ball and free joints, wrench at a site (no refsite), site relative to a refsite with a full gear,
+      # adhesion on a body, and slider-cranks whose slider site sits on a body WITH rotational dofs above it (the axis Jacobian
+      # term is identically zero otherwise) and whose crank is in the same tree / another tree / the world, plus the mirrored one
+      # (slider on the world)
+      try:
+        mjm0 = mujoco.MjModel.from_xml_string(models.wrap(wb))
+      except ValueError:
+        continue
+      act += _all_transmissions(rx, mjm0, sp, c)
       if ten:
         extra += f"<tendon>{ten}</tendon>"
       if act:
@@ -60,6 +186,9 @@ def _run(ctx, ncases, rec):
       for j in range(mjm.njnt):
         if mjm.jnt_type[j] == 0:
           mjd.qpos[mjm.jnt_qposadr[j] + 2] = rng.uniform(0.03, 0.4)
+      mjd.ctrl[:] = rx.uniform(0, 1, size=mjm.nu)
+      mujoco.mj_kinematics(mjm, mjd)
+      det = _set_cranklengths(rx, mjm, mjd, c)
       mujoco.mj_forward(mjm, mjd)
       m = mjw.put_model(mjm)
       d = mjw.put_data(mjm, mjd, nworld=1, naconmax=200, njmax=400)
@@ -79,39 +208,95 @@ def _run(ctx, ncases, rec):
         if not (np.allclose(jacp.numpy()[0], jp, atol=2e-4) and np.allclose(jacr.numpy()[0], jr, atol=2e-4)):
           acc.find(f"jac() differs from mj_jac for body {b} (max |d| {max(np.abs(jacp.numpy()[0] - jp).max(), np.abs(jacr.numpy()[0] - jr).max()):.3g})", "support.jac", "vs-mj_jac", xml=xml,
                    qpos=mjd.qpos.tolist(), body=b, point=pt.tolist())
-      # (a') tendon and actuator lengths and velocities (velocity = Jacobian * qvel, for a random qvel) vs MuJoCo, and the
-      # velocities against a central finite difference of mujoco_warp's OWN lengths along qvel (J is the derivative of L)
+      # (a') tendon and actuator lengths, velocities (Jacobian * qvel, random qvel) and the COMPLETE Jacobian matrices (ten_J,
+      # actuator_moment) vs MuJoCo, and the Jacobians against central finite differences of mujoco_warp's OWN lengths along every
+      # dof and along qvel (J is the derivative of L). One batched Data: worlds 0..nv-1 / nv..2nv-1 hold qpos +- h e_j, 2nv and
+      # 2nv+1 hold qpos +- h qvel, and the last world holds the unperturbed state with MuJoCo's OWN contacts and constraint rows
+      # (put_data copies them), which isolates the adhesion (body) moment from collision-stage differences.
       if mjm.ntendon or mjm.nu:
+        nv, nu, nt = mjm.nv, mjm.nu, mjm.ntendon
         h = 1e-3
-        Lp = []
-        for sgn in (+1, -1):
-          q2 = mjd.qpos.copy()
-          mujoco.mj_integratePos(mjm, q2, mjd.qvel, sgn * h)
-          mdx = mujoco.MjData(mjm); mdx.qpos[:] = q2
-          mujoco.mj_kinematics(mjm, mdx); mujoco.mj_comPos(mjm, mdx)
-          dx = mjw.put_data(mjm, mdx, nworld=1, naconmax=200, njmax=400)
-          dx.qpos.assign(q2[None].astype(np.float32))
-          mjw.kinematics(m, dx); mjw.com_pos(m, dx); mjw.tendon(m, dx); mjw.transmission(m, dx)
-          Lp.append((dx.ten_length.numpy()[0].astype(np.float64), dx.actuator_length.numpy()[0].astype(np.float64)))
-        # site transmissions with a reference site measure rotation by a quaternion difference in a moving frame: their moment is
-        # MuJoCo's definition, not the exact derivative of that length, so the finite-difference test covers joint/tendon transmissions
-        fdmask = {"tendon": np.ones(mjm.ntendon, dtype=bool),
-                  "actuator": np.isin(mjm.actuator_trntype, [int(mujoco.mjtTrn.mjTRN_JOINT), int(mujoco.mjtTrn.mjTRN_TENDON)])}
-        for nm, got_l, ref_l, got_v, ref_v, fd in (("tendon", d.ten_length.numpy()[0], mjd.ten_length, d.ten_velocity.numpy()[0], mjd.ten_velocity, (Lp[0][0] - Lp[1][0]) / (2 * h)),
-                                                  ("actuator", d.actuator_length.numpy()[0], mjd.actuator_length, d.actuator_velocity.numpy()[0], mjd.actuator_velocity, (Lp[0][1] - Lp[1][1]) / (2 * h))):
+        nW = 2 * nv + 3
+        Q = np.tile(mjd.qpos, (nW, 1))
+        for j in range(nv):
+          e = np.zeros(nv); e[j] = 1.0
+          for sgn, w in ((+1, j), (-1, nv + j)):
+            q2 = mjd.qpos.copy(); mujoco.mj_integratePos(mjm, q2, e, sgn * h); Q[w] = q2
+        for sgn, w in ((+1, 2 * nv), (-1, 2 * nv + 1)):
+          q2 = mjd.qpos.copy(); mujoco.mj_integratePos(mjm, q2, mjd.qvel, sgn * h); Q[w] = q2
+        dx = mjw.put_data(mjm, mjd, nworld=nW, naconmax=max(200, mjd.ncon * nW), njmax=400)
+        dx.qpos.assign(Q.astype(np.float32))
+        mjw.kinematics(m, dx); mjw.com_pos(m, dx); mjw.tendon(m, dx); mjw.transmission(m, dx)
+        TL, AL = dx.ten_length.numpy().astype(np.float64), dx.actuator_length.numpy().astype(np.float64)
+        fdJ = {"tendon": (TL[:nv] - TL[nv:2 * nv]).T / (2 * h), "actuator": (AL[:nv] - AL[nv:2 * nv]).T / (2 * h)}
+        fdv = {"tendon": (TL[2 * nv] - TL[2 * nv + 1]) / (2 * h), "actuator": (AL[2 * nv] - AL[2 * nv + 1]) / (2 * h)}
+        # complete Jacobians, dense: mujoco_warp (after forward), MuJoCo, and (adhesion rows) transmission() alone on MuJoCo's contacts
+        trn = mjm.actuator_trntype
+        got_J = {"tendon": _dense(d.ten_J.numpy()[0], m.ten_J_rownnz.numpy(), m.ten_J_rowadr.numpy(), m.ten_J_colind.numpy(), nt, nv),
+                 "actuator": _dense(d.actuator_moment.numpy()[0], d.moment_rownnz.numpy()[0], d.moment_rowadr.numpy()[0], d.moment_colind.numpy()[0], nu, nv)}
+        ref_J = {"tendon": _dense(mjd.ten_J, mjm.ten_J_rownnz, mjm.ten_J_rowadr, mjm.ten_J_colind, nt, nv),
+                 "actuator": _dense(mjd.actuator_moment, mjd.moment_rownnz, mjd.moment_rowadr, mjd.moment_colind, nu, nv)}
+        iso = _dense(dx.actuator_moment.numpy()[nW - 1], dx.moment_rownnz.numpy()[nW - 1], dx.moment_rowadr.numpy()[nW - 1], dx.moment_colind.numpy()[nW - 1], nu, nv)
+        got_J["actuator"][trn == 5] = iso[trn == 5]
+        # the Jacobian is the exact derivative of the length for tendons and for joint (hinge/slide), tendon and slider-crank
+        # transmissions (slider-crank: away from the branch switch det = 0). NOT for: ball joints (length = gear . log(quat)),
+        # free joints / sites without refsite / bodies (length 0 by definition), sites with a refsite (MuJoCo's moment ignores the
+        # rotation of the reference frame): for those MuJoCo's matrix is the reference.
+        scalar_jnt = np.array([trn[i] in (0, 1) and mjm.jnt_type[mjm.actuator_trnid[i, 0]] in (2, 3) for i in range(nu)], dtype=bool)
+        fdmask = {"tendon": np.ones(nt, dtype=bool), "actuator": scalar_jnt | (trn == 3) | ((trn == 2) & (np.abs(np.nan_to_num(det)) > 1e-2))}
+        # adhesion rows after a full forward depend on mujoco_warp's own contact set (another property's business): no velocity comparison
+        vmask = {"tendon": np.ones(nt, dtype=bool), "actuator": trn != 5}
+        kinds = {"tendon": ["tendon"] * nt, "actuator": [TRN[int(t)] for t in trn]}
+        for nm, got_l, ref_l, got_v, ref_v in (("tendon", d.ten_length.numpy()[0], mjd.ten_length, d.ten_velocity.numpy()[0], mjd.ten_velocity),
+                                               ("actuator", d.actuator_length.numpy()[0], mjd.actuator_length, d.actuator_velocity.numpy()[0], mjd.actuator_velocity)):
           if not len(ref_l):
             continue
           acc.evals += 1
           sc = 1 + np.abs(ref_v).max()
+          fd, msk = fdv[nm], fdmask[nm]
+          rowsc = 1 + np.abs(ref_J[nm]).max(axis=1, keepdims=True)
+          bad_m = np.abs(got_J[nm] - ref_J[nm]).max(axis=1) > 2e-4 * rowsc[:, 0]
+          bad_fd = (np.abs(got_J[nm] - fdJ[nm]).max(axis=1) > 2e-2 * rowsc[:, 0]) & msk
           if not np.allclose(got_l, ref_l, rtol=1e-4, atol=1e-4):
-            acc.find(f"{nm} length differs from mj_forward (max |d| {np.abs(got_l - ref_l).max():.3g})", "smooth.tendon/transmission", f"{nm}-length", xml=xml, qpos=mjd.qpos.tolist())
-          elif not np.allclose(got_v, ref_v, rtol=2e-3, atol=2e-3 * sc):
-            acc.find(f"{nm} velocity (Jacobian * qvel) differs from mj_forward (max |d| {np.abs(got_v - ref_v).max():.3g})", "smooth.tendon/transmission", f"{nm}-jacobian", xml=xml,
-                     qpos=mjd.qpos.tolist(), qvel=mjd.qvel.tolist())
-          elif not np.allclose(got_v[fdmask[nm]], fd[fdmask[nm]], rtol=2e-2, atol=2e-2 * sc):
-            acc.find(f"{nm} velocity (Jacobian * qvel) is not the derivative of its own length along qvel (max |d| {np.abs(got_v - fd).max():.3g})", "smooth.tendon/transmission",
-                     f"{nm}-jacobian-fd", xml=xml, qpos=mjd.qpos.tolist(), qvel=mjd.qvel.tolist())
+            acc.find(f"{nm} length differs from mj_forward (max |d| {np.abs(got_l - ref_l).max():.3g})", "smooth.tendon/transmission", f"{nm}-length", xml=xml, qpos=mjd.qpos.tolist(),
+                     cranklength=mjm.actuator_cranklength.tolist())
+          elif bad_m.any():
+            # one finding per transmission kind of the case
+            for kind in sorted({kinds[nm][i] for i in np.nonzero(bad_m)[0]}):
+              rows = [int(i) for i in np.nonzero(bad_m)[0] if kinds[nm][i] == kind]
+              acc.find(f"{nm} Jacobian ({kind}) differs from MuJoCo's on the same state: rows {rows}, max |d| {np.abs(got_J[nm][rows] - ref_J[nm][rows]).max():.3g} "
+                       f"(finite difference of the own length agrees with {'MuJoCo' if np.abs(fdJ[nm][rows] - ref_J[nm][rows]).max() < np.abs(fdJ[nm][rows] - got_J[nm][rows]).max() else 'mujoco_warp'}"
+                       f"{'' if msk[rows].all() else '; not an exact derivative for this kind'})", "smooth.tendon/transmission", f"{nm}-jacobian-matrix-{kind}", xml=xml, qpos=mjd.qpos.tolist(),
+                       qvel=mjd.qvel.tolist(), cranklength=mjm.actuator_cranklength.tolist(), rows=rows)
+          elif not np.allclose(got_v[vmask[nm]], ref_v[vmask[nm]], rtol=2e-3, atol=2e-3 * sc):
+            acc.find(f"{nm} velocity (Jacobian * qvel) differs from mj_forward (max |d| {np.abs(got_v - ref_v)[vmask[nm]].max():.3g})", "smooth.tendon/transmission", f"{nm}-jacobian", xml=xml,
+                     qpos=mjd.qpos.tolist(), qvel=mjd.qvel.tolist(), cranklength=mjm.actuator_cranklength.tolist())
+          elif bad_fd.any():
+            rows = [int(i) for i in np.nonzero(bad_fd)[0]]
+            acc.find(f"{nm} Jacobian is not the derivative of its own length (rows {rows}, per-dof central differences; max |d| {np.abs(got_J[nm][rows] - fdJ[nm][rows]).max():.3g})",
+                     "smooth.tendon/transmission", f"{nm}-jacobian-fd", xml=xml, qpos=mjd.qpos.tolist(), cranklength=mjm.actuator_cranklength.tolist(), rows=rows)
+          elif not np.allclose(got_v[msk], fd[msk], rtol=2e-2, atol=2e-2 * sc):
+            acc.find(f"{nm} velocity (Jacobian * qvel) is not the derivative of its own length along qvel (max |d| {np.abs(got_v[msk] - fd[msk]).max():.3g})", "smooth.tendon/transmission",
+                     f"{nm}-jacobian-fd", xml=xml, qpos=mjd.qpos.tolist(), qvel=mjd.qvel.tolist(), cranklength=mjm.actuator_cranklength.tolist())
           acc.hit(nm)
+          acc.evals += int(len(ref_l))
+        # what was really exercised (vacuity): per transmission kind, and for slider-cranks the geometry the axis term depends on
+        for i in range(nu):
+          kind = TRN[int(trn[i])]
+          acc.hit("trn-" + kind + ("" if kind not in ("joint", "jointinparent") else "-" + ("free", "ball", "slide", "hinge")[int(mjm.jnt_type[mjm.actuator_trnid[i, 0]])]))
+          if kind == "slidercrank":
+            cr, sl = (int(mjm.site_bodyid[k]) for k in mjm.actuator_trnid[i])
+            jp, jr = np.zeros((3, nv)), np.zeros((3, nv))
+            mujoco.mj_jacSite(mjm, mjd, jp, jr, int(mjm.actuator_trnid[i, 1]))
+            ax = mjd.site_xmat[mjm.actuator_trnid[i, 1]].reshape(3, 3)[:, 2]
+            acc.hit("slidercrank-axis-moves" if np.abs(np.cross(jr.T, ax)).max() > 1e-3 else "slidercrank-axis-fixed")
+            acc.hit("slidercrank-" + ("world-slider" if mjm.body_weldid[sl] == 0 else "world-crank" if mjm.body_weldid[cr] == 0 else
+                                      "same-tree" if mjm.body_rootid[cr] == mjm.body_rootid[sl] else "other-tree"))
+            acc.hit("slidercrank-det<=0" if det[i] <= 0 else "slidercrank-det>0")
+          if kind == "body":
+            bid = int(mjm.actuator_trnid[i, 0])
+            nc = sum(1 for k in range(mjd.ncon) if bid in (mjm.geom_bodyid[mjd.contact.geom[k][0]], mjm.geom_bodyid[mjd.contact.geom[k][1]]))
+            acc.hit("body-with-contacts" if nc else "body-without-contacts")
       # (b) J*qvel = efc_vel for every row
       nefc = int(d.nefc.numpy()[0])
       if nefc and (d.overflow.numpy() == 0).all():
@@ -131,15 +316,26 @@ def _run(ctx, ncases, rec):
       # (c) dense vs sparse give the same qacc
       other = "dense" if jac_mode == "sparse" else "sparse"
       mjm2 = mujoco.MjModel.from_xml_string(xml.replace(f'jacobian="{jac_mode}"', f'jacobian="{other}"'))
+      mjm2.actuator_cranklength[:] = mjm.actuator_cranklength
       m2 = mjw.put_model(mjm2)
       md2 = mujoco.MjData(mjm2)
-      md2.qpos[:], md2.qvel[:] = mjd.qpos, mjd.qvel
+      md2.qpos[:], md2.qvel[:], md2.ctrl[:] = mjd.qpos, mjd.qvel, mjd.ctrl
       mujoco.mj_forward(mjm2, md2)
       d2 = mjw.put_data(mjm2, md2, nworld=1, naconmax=200, njmax=400)
       mjw.forward(m2, d2)
       qa, qb = d.qacc.numpy()[0], d2.qacc.numpy()[0]
-      if (d.overflow.numpy() == 0).all() and (d2.overflow.numpy() == 0).all() and not np.allclose(qa, qb, rtol=5e-3, atol=5e-3 * (1 + np.abs(qa).max())):
-        acc.find(f"dense and sparse Jacobian settings give different qacc (max |d| {np.abs(qa - qb).max():.3g})", "constraint/solver", "dense-vs-sparse", xml=xml, qpos=mjd.qpos.tolist(), qvel=mjd.qvel.tolist())
+      # float32 solves lose eps32 * cond(M) relative accuracy: the tolerance follows the condition number of the mass matrix
+      # (a tree of light bodies behind heavy ones reaches cond 1e5, where the two representations legitimately differ by 1%)
+      Mfull = np.zeros((mjm.nv, mjm.nv))
+      for j in range(mjm.nv):
+        e = np.zeros(mjm.nv); e[j] = 1.0; col = np.zeros(mjm.nv)
+        mujoco.mj_mulM(mjm, mjd, col, e); Mfull[:, j] = col
+      rel = max(5e-3, 2e-7 * float(np.linalg.cond(Mfull)))
+      if rel > 5e-3:
+        acc.hit("ill-conditioned-M")
+      if (d.overflow.numpy() == 0).all() and (d2.overflow.numpy() == 0).all() and not np.allclose(qa, qb, rtol=rel, atol=rel * (1 + np.abs(qa).max())):
+        acc.find(f"dense and sparse Jacobian settings give different qacc (max |d| {np.abs(qa - qb).max():.3g})", "constraint/solver", "dense-vs-sparse", xml=xml, qpos=mjd.qpos.tolist(), qvel=mjd.qvel.tolist(),
+                 ctrl=mjd.ctrl.tolist(), cranklength=mjm.actuator_cranklength.tolist())
       acc.sample({"nbody": int(mjm.nbody), "nv": int(mjm.nv), "jacobian": jac_mode, "nefc": nefc})
 
   if rec:
@@ -150,10 +346,13 @@ def _run(ctx, ncases, rec):
   return acc, kc
 
 
-RULE = ("random trees over a floor with limits, friction loss, a connect equality, spatial tendons between sites of arbitrary trees, a fixed tendon and actuators on joints/tendons/sites, dense or sparse; "
-        "(a') tendon/actuator lengths and velocities vs mj_forward and velocities vs central differences of their own lengths; (a) jac() at random points of random bodies vs mujoco.mj_jac, (b) J*qvel vs efc_vel for all rows, "
-        "(c) the same state with the other Jacobian representation gives the same qacc; distinct = (case, representation)")
-
+RULE = ("random trees over a floor with limits, friction loss, a connect equality, spatial tendons between sites of arbitrary trees, a fixed tendon, an oriented site on every body and on the world, "
+        "and in EVERY case actuators of every transmission kind (joint/jointinparent on one joint of each type present, tendon, site, site+refsite with full gear, adhesion, and 3-5 slider-cranks: slider "
+        "site on a body with rotational dofs above it and crank in the same tree / another tree / the world / on an unrotated site, plus slider on the world; every third case one of them with det < 0), "
+        "random controls, dense or sparse; (a') tendon/actuator lengths, velocities and complete Jacobian matrices vs MuJoCo (adhesion rows: transmission() alone on MuJoCo's contacts), Jacobian rows vs "
+        "per-dof central differences of their own lengths and velocities vs central differences along qvel (one batched Data of 2 nv + 3 worlds); (a) jac() at random points of random bodies vs "
+        "mujoco.mj_jac, (b) J*qvel vs efc_vel for all rows, (c) the same state with the other Jacobian representation gives the same qacc; distinct = (case, representation); hits list the transmission "
+        "kinds and slider-crank geometries really exercised (axis-moves = the slider axis has a non-zero Jacobian)")
 
 def correspondence(ctx):
   acc, kc = _run(ctx, 40 if ctx.thorough else 10, True)
@@ -162,4 +361,4 @@ def correspondence(ctx):
 
 def search(ctx, breaks):
   acc, _ = _run(ctx, 100, False)
-  return search_result(acc, "mujoco.mj_jac, J*qvel = efc_vel, dense vs sparse")
+  return search_result(acc, "mujoco.mj_jac, J*qvel = efc_vel, tendon/actuator Jacobian matrices vs MuJoCo and vs finite differences, dense vs sparse")
